@@ -223,6 +223,11 @@ FindCases == {Case(fn, <<D(f), D(w)>>) : fn \in {"FIND", "SEARCH"}, f \in Finds,
              \cup {Case(fn, <<f, w>>) : fn \in {"FIND", "SEARCH"},
                       f \in {D(IntV(2)), D(T), Cell1(Blank), D(NAe)},
                       w \in {D(IntV(1234)), D(tTrue), Cell1(Blank), D(D0), D(IntV(212))}}
+             \* 1 / TRUE and 0 / FALSE as the text looked for are "1" / "TRUE" and "0" / "FALSE"
+             \cup {Case(fn, <<f, w>>) : fn \in {"FIND", "SEARCH"},
+                      f \in {D(IntV(1)), D(T), D(IntV(0)), D(F), Cell1(IntV(1)), Cell1(T), Cell1(F), Cell1(IntV(0))},
+                      w \in {D(S(<<120, 49, 45, 84, 82, 85, 69>>)),          \* "x1-TRUE"
+                             D(S(<<70, 65, 76, 83, 69, 45, 48>>))}}          \* "FALSE-0"
 ReplaceCases == {Case("REPLACE", <<D(o), D(IntV(st)), D(IntV(k)), D(nw)>>) :
                     o \in {tABC, tEmpty, sAbCd}, st \in {0, 1, 2, 3, 4, 5, 9}, k \in {0, 1, 2, 5, -1},
                     nw \in {tEmpty, S(<<88, 89>>)}}
